@@ -5,8 +5,11 @@
                                     (the result is order-independent; the harness passes ascending) -> root hash
      (2 x<key>)                     Get -> (x<value>) or ()
      (3)                            NewIterator(NodeIterator(nil)) drained -> ((x<key> x<value>)..)
+     (4 ((x<k> x<v>)..))            a fresh StackTrie: Update each pair in order, then Hash
+                                    -> ((code..) x<root>), code 0 = ok, 1 = empty value, 2 = non-ascending;
+                                    a panic ends it: ((code..) (-2 2))
    observation = list of per-op results; an op that errors yields (-2 <class>) and stops the run. *)
-From GV Require Import Lib.Sx Keccak.Sponge Trie.Hex Trie.Node Trie.Ops Trie.Hash Trie.Iter.
+From GV Require Import Lib.Sx Keccak.Sponge Trie.Hex Trie.Node Trie.Ops Trie.Hash Trie.Iter Trie.Stack.
 
 Definition no_resolve (h p : list N) : option (node * list N) := None.
 
@@ -22,6 +25,21 @@ Definition root_sx (n : node) : sx :=
 
 Definition kv_of (s : sx) : option (list N * list N) :=
   match s with SL [SB k; SB v] => Some (k, v) | _ => None end.
+
+Fixpoint stack_run (s : stack) (kvs : list (list N * list N)) (codes : list sx) : sx :=
+  match kvs with
+  | [] =>
+      match st_root keccak256 s with
+      | TOk h => SL [SL (rev codes); SB h]
+      | TErr e => SL [SL (rev codes); serr e]
+      end
+  | (k, v) :: r =>
+      match st_update keccak256 s k v with
+      | TErr e => SL [SL (rev codes); serr e]
+      | TOk (inl c) => stack_run s r (SI (Z.of_N c) :: codes)
+      | TOk (inr s') => stack_run s' r (SI 0%Z :: codes)
+      end
+  end.
 
 Fixpoint run_ops (root : node) (ops : list sx) : list sx :=
   match ops with
@@ -44,6 +62,11 @@ Fixpoint run_ops (root : node) (ops : list sx) : list sx :=
       match trie_get no_resolve root k with
       | TOk (v, root', _, _) => sopt SB v :: run_ops root' r
       | TErr e => [serr e]
+      end
+  | SL [SI 4%Z; SL kvs] :: r =>
+      match opt_map kv_of kvs with
+      | Some l => stack_run stack_new l [] :: run_ops root r
+      | None => [SErr 1]
       end
   | SL [SI 3%Z] :: r =>
       match trie_iterate root with
